@@ -18,6 +18,9 @@ type FS struct {
 	count   atomic.Int64
 	crashAt atomic.Int64 // -1: never
 	crashed atomic.Bool
+	// keepAll: second fault model - at the crash point everything done SO FAR is made durable first (every file and directory is
+	// synced), only what comes after it is lost: a process that dies while the operating system survives
+	keepAll atomic.Bool
 	mu      sync.Mutex
 	log     []string // names of the counted operations (diagnostics; bounded)
 	logOn   bool
@@ -46,6 +49,39 @@ func (f *FS) Arm(n int64) {
 	f.crashAt.Store(n)
 }
 
+// ArmKeep is Arm for the "process dies, operating system survives" model: nothing that was done before operation n is lost.
+func (f *FS) ArmKeep(n int64) {
+	f.keepAll.Store(true)
+	f.Arm(n)
+}
+
+// syncAll makes the current state of the whole tree durable.
+func (f *FS) syncAll(dir string) {
+	names, err := f.mem.List(dir)
+	if err != nil {
+		return
+	}
+	for _, n := range names {
+		p := f.mem.PathJoin(dir, n)
+		st, err := f.mem.Stat(p)
+		if err != nil {
+			continue
+		}
+		if st.IsDir() {
+			f.syncAll(p)
+			continue
+		}
+		if x, err := f.mem.Open(p); err == nil {
+			_ = x.Sync()
+			_ = x.Close()
+		}
+	}
+	if d, err := f.mem.OpenDir(dir); err == nil {
+		_ = d.Sync()
+		_ = d.Close()
+	}
+}
+
 func (f *FS) EnableLog(on bool) { f.logOn = on }
 
 func (f *FS) Log() []string {
@@ -72,6 +108,9 @@ func (f *FS) tick(what string) {
 	}
 	if at := f.crashAt.Load(); at >= 0 && n >= at && !f.crashed.Load() {
 		f.crashed.Store(true)
+		if f.keepAll.Load() {
+			f.syncAll("/")
+		}
 		f.mem.SetIgnoreSyncs(true)
 	}
 }
@@ -83,6 +122,7 @@ func (f *FS) Crash() {
 	f.mem.SetIgnoreSyncs(false)
 	f.crashed.Store(false)
 	f.crashAt.Store(-1)
+	f.keepAll.Store(false)
 }
 
 func (f *FS) Dump() string { return f.mem.String() }
